@@ -81,7 +81,7 @@ theorem add_parameters_fresh (tb : Tables) (ops : List (Op K)) (h : Nat) (names 
       | inl x => exact x
       | inr x => rw [List.getElem?_eq_none x] at hc; cases hc
     simp only [step, s, ids, hc]
-    simp [List.getElem?_set, hl, s]
+    simp [hl, s]
   · have := freshIds_ge hp
     exact Nat.ne_of_gt (Nat.lt_of_lt_of_le hw.pos this)
   · have h1 := (hi c0 hc0 p hm).2
